@@ -50,9 +50,12 @@ pub struct Case {
 }
 
 fn build(scenario: &str) -> Net<Packet> {
-    let n = if scenario == "three" { 3 } else { 2 };
+    let n = if scenario.starts_with("three") { 3 } else { 2 };
     let mut net = Net::<Packet>::new();
     net.capture = Some(vec![]);
+    // "three_rev": the order of the nodes' salted hashes is reversed, so that the node that dialled everybody (node 0) also
+    // holds the HIGHEST hash - its captured pings then win the concurrent-connect comparison against every handshake object
+    net.reverse_salts = scenario == "three_rev";
     for i in 0..n {
         let mut cfg = base_config(Mode::Router, Type::Tun, 0, &[0]);
         cfg.claims = vec![format!("10.0.{}.0/24", i)];
@@ -196,7 +199,89 @@ fn mutate(data: &[u8], variant: &str) -> Vec<u8> {
         "trunc-1" => {
             d.pop();
         }
+        v if v.starts_with("hs:") => return edit_handshake(&d, v),
         _ => panic!("unknown variant"),
+    }
+    d
+}
+
+/// Positions of the parts of a handshake datagram: (tag, offset of the 2-byte length, body offset, body length), and the
+/// offset of the signature-length byte. Layout: marker, 4 salt + 4 key hash, parts (tag, len16, body)*, end tag 0, siglen, sig.
+fn handshake_parts(d: &[u8]) -> Option<(Vec<(u8, usize, usize, usize)>, usize)> {
+    if d.first() != Some(&0xff) || d.len() < 10 {
+        return None;
+    }
+    let mut parts = vec![];
+    let mut pos = 9;
+    loop {
+        let tag = *d.get(pos)?;
+        if tag == 0 {
+            return Some((parts, pos + 1));
+        }
+        let len = ((*d.get(pos + 1)? as usize) << 8) | *d.get(pos + 2)? as usize;
+        parts.push((tag, pos + 1, pos + 3, len));
+        pos += 3 + len;
+    }
+}
+
+/// Single-field edits of a genuine handshake datagram ("hs:<what>"): what an outsider can do to a captured message.
+pub const HS_EDITS: [&str; 19] = [
+    "hs:keysalt^1", "hs:keyhash^1", "hs:siglen=0", "hs:siglen=63", "hs:siglen=65", "hs:siglen=255", "hs:sig^first", "hs:sig^last", "hs:part0:len+1", "hs:part1:len+1",
+    "hs:part1:body^1", "hs:part2:len=0", "hs:part2:len=ffff", "hs:part2:body^1", "hs:part3:len+5", "hs:part3:body^1", "hs:part3:len=fff8", "hs:drop_end", "hs:part0:tag=9",
+];
+
+fn edit_handshake(data: &[u8], variant: &str) -> Vec<u8> {
+    let mut d = data.to_vec();
+    let (parts, siglen_at) = match handshake_parts(&d) {
+        Some(x) => x,
+        None => return d,
+    };
+    let what = &variant[3..];
+    let set16 = |d: &mut Vec<u8>, at: usize, v: usize| {
+        d[at] = (v >> 8) as u8;
+        d[at + 1] = v as u8;
+    };
+    match what {
+        "keysalt^1" => d[1] ^= 1,
+        "keyhash^1" => d[5] ^= 1,
+        "siglen=0" => d[siglen_at] = 0,
+        "siglen=63" => d[siglen_at] = 63,
+        "siglen=65" => d[siglen_at] = 65,
+        "siglen=255" => d[siglen_at] = 255,
+        "sig^first" => {
+            if siglen_at + 1 < d.len() {
+                d[siglen_at + 1] ^= 0x80
+            }
+        }
+        "sig^last" => {
+            let n = d.len();
+            d[n - 1] ^= 1
+        }
+        "drop_end" => {
+            d[siglen_at - 1] = 7; // the end marker becomes an unknown part: the parser runs on into the signature
+        }
+        w if w.starts_with("part") => {
+            let idx = (w.as_bytes()[4] - b'0') as usize;
+            let (_, len_at, body_at, len) = match parts.get(idx) {
+                Some(p) => *p,
+                None => return data.to_vec(),
+            };
+            match &w[6..] {
+                "len+1" => set16(&mut d, len_at, len + 1),
+                "len+5" => set16(&mut d, len_at, len + 5),
+                "len=0" => set16(&mut d, len_at, 0),
+                "len=ffff" => set16(&mut d, len_at, 0xffff),
+                "len=fff8" => set16(&mut d, len_at, 0xfff8),
+                "body^1" => {
+                    if len > 0 {
+                        d[body_at] ^= 1
+                    }
+                }
+                "tag=9" => d[len_at - 1] = 9,
+                _ => panic!("unknown handshake edit"),
+            }
+        }
+        _ => panic!("unknown handshake edit"),
     }
     d
 }
@@ -289,6 +374,7 @@ pub fn run_case(c: &Case) -> CaseResult {
     // probe packets sent so far - allow exactly one extra copy of any earlier probe packet
     let before_frames: Vec<Vec<u8>> = (0..net.nodes.len()).flat_map(|j| net.pop_frames(j)).collect();
     let _ = before_frames;
+    let cap_at_injection = net.capture.as_ref().unwrap().len();
     let r = util::catch(|| net.inject(to, from, data.clone()));
     let tag = |f: Fail| f.with("datagram", kind.clone()).with("variant", c.variant.clone()).with("source", c.source.clone()).with("offset", c.offset).with("target", c.target.clone());
     if let Err(p) = r {
@@ -359,22 +445,35 @@ pub fn run_case(c: &Case) -> CaseResult {
             }
         }
     }
+    let mut scanned = cap_at_injection;
     for _ in 0..PROBE_SECS {
         second(&mut net, true, &mut extra, &mut log).map_err(|f| {
             let since = net.now - (w.sent_at + c.offset);
             tag(f).with("seconds_after_injection_class", if since <= 2 { "0-2" } else if since <= 125 { "3-125" } else { ">125" })
         })?;
+        // A connected node never opens a handshake (sends a ping) towards another node of the mesh: a ping on the wire means
+        // that somebody dropped a peer and re-dialled it - possibly within one second, which the connectivity test above
+        // cannot see. (Byte 12 of a handshake datagram is its stage value; pongs and pengs are answers, not dials.)
+        let cap = net.capture.as_ref().unwrap();
+        for x in &cap[scanned..] {
+            if x.data.first() == Some(&0xff) && x.data.len() > 12 && x.data[12] == 1 && net.node_index(&x.to).is_some() {
+                let since = net.now - (w.sent_at + c.offset);
+                return Err(tag(Fail::new("redialled", format!("{} s after the injection node {} opened a new handshake towards {} (it had dropped that peer)", since, net.node_index(&x.from).unwrap_or(99), x.to)))
+                    .with("seconds_after_injection_class", if since <= 2 { "0-2" } else if since <= 125 { "3-125" } else { ">125" }));
+            }
+        }
+        scanned = cap.len();
     }
     Ok(1 + (kind != "sealed") as u64 * 2 + (c.source == "original") as u64 * 4)
 }
 
 pub fn cases(tier: Tier) -> Vec<Case> {
     let mut v = vec![];
-    let scenarios: &[&str] = tier.pick(&["two_single", "three", "two_single_plain"][..], &["two_single", "two_dual", "three", "two_single_plain"][..]);
+    let scenarios: &[&str] = tier.pick(&["two_single", "three", "three_rev", "two_single_plain"][..], &["two_single", "two_dual", "three", "three_rev", "two_single_plain"][..]);
     for sc in scenarios {
         let sel = select(sc);
         for (k, kind, _rel) in sel {
-            let sources: &[&str] = if *sc == "three" { &["original", "other_peer", "unknown"] } else { &["original", "unknown"] };
+            let sources: &[&str] = if sc.starts_with("three") { &["original", "other_peer", "unknown"] } else { &["original", "unknown"] };
             if sc.ends_with("_plain") && (kind == "sealed" || kind == "empty") {
                 // on an unencrypted connection data datagrams carry no counter and no tag: replaying them is not prevented
                 // by design ("unless both ends explicitly enabled plain"); only handshake datagrams are re-injected there
@@ -391,9 +490,29 @@ pub fn cases(tier: Tier) -> Vec<Case> {
             } else {
                 vec!["verbatim", "stage", "flip_last", "trunc-1"]
             };
+            if kind != "sealed" && kind != "empty" && *sc != "three_rev" {
+                // single-field edits of the handshake datagram (key hash, every part's length and body, signature length and
+                // bytes): at two offsets in the quick tier (handshake object still there / gone), at all offsets in the thorough tier
+                for &offset in OFFSETS.iter() {
+                    if tier == Tier::Quick && ![0, 61].contains(&offset) {
+                        continue;
+                    }
+                    for source in sources {
+                        if tier == Tier::Quick && *source == "unknown" && offset != 0 {
+                            continue;
+                        }
+                        for edit in HS_EDITS.iter() {
+                            v.push(Case { scenario: sc.to_string(), k, offset, source: source.to_string(), variant: edit.to_string(), target: "dest".into(), second: None });
+                        }
+                    }
+                }
+            }
             for &offset in OFFSETS.iter() {
-                if tier == Tier::Quick && *sc == "three" && ![0, 2, 61, 121].contains(&offset) {
+                if tier == Tier::Quick && sc.starts_with("three") && ![0, 2, 61, 121].contains(&offset) {
                     continue;
+                }
+                if *sc == "three_rev" && (kind == "sealed" || kind == "empty") {
+                    continue; // the reversed order matters for handshake datagrams only
                 }
                 for source in sources {
                     for variant in &variants {
